@@ -4,6 +4,7 @@ from ..runner import Prop, Group
 from . import gs_common as G
 
 class C01(Prop):
+    translators = ['gsres', 'gshosp']   # both loops of GaleShapley.scf regenerated from deterministic_matching.py on every run and proved to refine the model
     layouts = True
     pid = "C01"
     sources = ["socialchoicekit/deterministic_matching.py"]
